@@ -149,6 +149,8 @@ class Driver {
         dfs = true;
       } else if (a == "--bound") {
         bound = std::atoi(next().c_str());
+      } else if (a == "--dfs-cap") {
+        _dfs_cap = std::atol(next().c_str());
       } else if (a == "--tier") {
         tier = next() == "thorough" ? 1 : 0;
       } else if (a == "--shard") {
@@ -361,7 +363,7 @@ class Driver {
           _st.exhaustive = false;
           return 3;
         }
-        if (n >= kDfsCap) {
+        if (n >= _dfs_cap) {
           _st.exhaustive = false;  // space larger than the cap: reported, not a violation
           ++_st.tags["dfs-capped-programs"];
           break;
@@ -409,7 +411,7 @@ class Driver {
   }
 
   static constexpr std::size_t kLastSize = 1 << 16;
-  static constexpr long kDfsCap = 400000;
+  long _dfs_cap = 400000;
   std::vector<Family*> _fams;
   std::string _out;
   Stats _st;
